@@ -9,6 +9,7 @@ ASSUMPTIONS = ["A-STR: list slice assignment with non-negative indices as modell
 RULE = ("exhaustive tiny grids (targets and sources of <= 2 rows x <= 2 cells over {x,' '}, positions 0..3) plus seeded random targets "
         "<= 6x9, sources <= 5x7, positions 0..11 (inside, at the edge of, beyond the buffer), default/explicit position, both block "
         "modes; writes of texts over {a,b,' ',newline} with widths None/-1..6 and max_width; non-trivial = the operation changes the buffer")
+LEAN_MODULES = ['C15', 'C15b']
 
 
 def _grids(maxr, maxc, alph="x "):
